@@ -1,5 +1,5 @@
 """C09 -- Sobolev and weighted-L2 indicators equal their definition."""
-from .. import estimrules, effects
+from .. import estimrules, effects, normsrules
 
 LEVEL = 'other'
 META = {
@@ -32,6 +32,8 @@ def run(prog, report, tier):
     estimrules.check_weighted_l2(prog, report)
     estimrules.check_patch(prog, report)
     estimrules.check_accumulation(prog, report)
+    estimrules.check_orders(prog, report)
+    normsrules.check_singular_measure(prog, report)
     effects.check_pools(prog, report, only={effects.EE})
     effects.check_samecall(prog, report)
     report.floors.pop('R-ordered', None)
